@@ -77,12 +77,13 @@ def u_size(U):
 # P given as a list of Python lists instead of 1-D arrays (same values; the list slice P[i][:k] is modelled for arrays).
 
 AXW = T.axioms('shape', 'smul', 'elem', 'wsum', 'wchain')
-UNIFORM, ONES = z3.Const('W!uniform', X.WL), z3.Const('W!ones', X.WL)
+UNIFORM = z3.Function('W!uniform', T.TT, X.WL)      # spec function: the uniform weights of a tensor (defined by uniform_def)
+ONES = z3.Const('W!ones', X.WL)                      # spec constant: all weights 1 (defined by ONES_DEF)
 
 
 def uniform_def(A):
-    """W!uniform[k] = the constant vector 1/n_k (definition of a spec constant)."""
-    return z3.ForAll([k_], UNIFORM[k_] == X.const_weights(z3.RealVal(1) / z3.ToReal(T.d1(A[k_]))), patterns=[UNIFORM[k_]])
+    """W!uniform(Y)[k] = the constant vector 1/n_k (definition of the spec function at this tensor)."""
+    return z3.ForAll([k_], UNIFORM(A)[k_] == X.const_weights(z3.RealVal(1) / z3.ToReal(T.d1(A[k_]))), patterns=[UNIFORM(A)[k_]])
 
 
 ONES_DEF = z3.ForAll([k_], ONES[k_] == X.const_weights(1), patterns=[ONES[k_]])
@@ -105,7 +106,7 @@ def _mean_unit(U, case):
         st.vars.update(Y=Y, P=Pref, norm=True)
     else:
         Pref = None
-        W = UNIFORM if case == 'uniform' else ONES
+        W = UNIFORM(A) if case == 'uniform' else ONES
         pre.append(uniform_def(A) if case == 'uniform' else ONES_DEF)
         st.vars.update(Y=Y, P=NONE, norm=(case == 'uniform'))
 
@@ -161,7 +162,7 @@ def call_mean(ex, st, args, kwargs, node):
     if not (isinstance(Ys, VSeq) and Ys.tag == 'core') or Pv is not NONE or not isinstance(nrm, bool) or set(kwargs) - {'P', 'norm'}:
         raise M.Unsupported('mean: only mean(<TT>, P=None, norm=<literal bool>) has a call-site contract')
     ex.oblige(st, 'call-pre', 'mean: well-formed tensor', T.wf(Ys.arr, Ys.n), node)
-    W = UNIFORM if nrm else ONES
+    W = UNIFORM(Ys.arr) if nrm else ONES
     st.assume(uniform_def(Ys.arr) if nrm else ONES_DEF)        # definition of the spec constant (not a fact about the code)
     v = ex.fresh_real('mean')
     st.assume(v == T.ent(X.wchain(Ys.arr, W, Ys.n - 1), 0, 0))
@@ -235,7 +236,7 @@ def _full_unit(U, d):
         U.post('result-has-one-axis-per-mode (axes of length 1 are kept, only the two boundary rank axes are dropped)', p, z3.BoolVal(Rv.ndim == d))
         if Rv.ndim == d:
             U.post('shape-is-the-tuple-of-mode-sizes', p, z3.And([Z(Rv.shape[k]) == T.d1(A[k]) for k in range(d)]), axioms=AXF, mode='ematch')
-        ok = Rv.tag == 'tdot' and Rv.lead is not None and Rv.trail is not None and len(Rv.t) == d
+        ok = Rv.tag == 'tdot' and Rv.lead is not None and Rv.trail is not None and not Rv.fixed and len(Rv.t) == d
         U.post('result-is-the-contraction-of-all-cores-with-both-rank-axes-dropped', p, z3.BoolVal(ok))
         if not ok:
             continue
@@ -253,3 +254,504 @@ def u_full2(U):
 @unit('transformation.full.d3', props=('C01',))
 def u_full3(U):
     _full_unit(U, 3)
+
+
+# ----------------------------------------------------------------------------------------------
+# act_one.get_many: the batch version of get
+#
+# For a batch I of m multi-indices (2-D integer array (m, d)) the result is the vector (length m) of the chained entries:
+#     out[s] = val(Y, I[s, :])   for every sample s.
+# Loop invariant: after processing core k every row of Q is the partial chain chain(Y, I[s, :], k) (a 1 x r_{k+1} matrix).
+# Case .rows (_to_item=False, used by callers that continue the chain): the result keeps the rank axes, out[:, s, :] = chain(Y, I[s,:], d-1).
+# Not covered: I given as a list of lists (np.asanyarray converts it to the same array), the broadcast of leading batch axes for
+# index arrays with more than two axes, rounding.
+
+AXG = T.axioms('shape', 'chain', 'row')
+ixg, sg = z3.Const('ix!g', T.IDX), z3.Int('s!g')
+
+
+def batch_index_ok(IMt, m, A, d):
+    return z3.ForAll([sg, k_], z3.Implies(z3.And(0 <= sg, sg < m, 0 <= k_, k_ < d), z3.And(0 <= IMt[sg][k_], IMt[sg][k_] < T.d1(A[k_]))),
+                     patterns=[IMt[sg][k_]])
+
+
+def chain_shape_all(U, A, d, hyps, axioms):
+    """lemma_chain_shape for an arbitrary multi-index (the proof does not use anything about the index), then generalised."""
+    ixa = z3.Const('ix!any', T.IDX)
+    lemma_chain_shape(U, 'Y', A, ixa, d, hyps, axioms)
+    return z3.ForAll([ixg, k_], z3.Implies(z3.And(0 <= k_, k_ < d), z3.And(T.rows(T.chain(A, ixg, k_)) == 1, T.cols(T.chain(A, ixg, k_)) == T.d2(A[k_]))),
+                     patterns=[T.chain(A, ixg, k_)])
+
+
+def _get_many_unit(U, to_item):
+    fn = U.func('act_one', 'get_many')
+    st = U.state()
+    Y, A, d = S.tt_param(st, 'Y')
+    IMt, m = z3.Const('I', X.IM), z3.Int('m')
+    Iv = X.idx_batch(IMt, m, d)
+    kind = 'rowbatch' if to_item else 'matbatch'
+
+    def is_batch(v):
+        return isinstance(v, VArr) and v.tag == kind and v.t is not None
+
+    def inv(ex, s, j):
+        Q = s.vars['Q']
+        if not is_batch(Q):
+            raise M.ContractMismatch('get_many(): Q is not a batch of partial chains')
+        return [('every-row-is-the-partial-chain-of-its-multi-index',
+                 z3.ForAll([sg], z3.Implies(z3.And(0 <= sg, sg < m), Q.t[sg] == T.chain(A, IMt[sg], j)), patterns=[Q.t[sg]])),
+                ('batch-shape', z3.And(Z(Q.shape[-2]) == m, Z(Q.shape[-1]) == T.d2(A[j]))),
+                ('arguments-untouched', z3.BoolVal(s.heap[Y.oid].arr is A and s.vars['I'].t is IMt))]
+
+    def hook(ex, h, pre_, j):
+        if is_batch(pre_.vars.get('Q')):
+            h.vars['Q'] = X.fresh_batch(ex, h, pre_.vars['Q'])
+
+    ex = U.executor(fn, loops={0: {'inv': inv, 'havoc_hook': hook}}, axioms=AXG)
+    ex.mode = 'ematch'
+    st.vars.update(Y=Y, I=Iv, _to_item=to_item)
+    pre = [T.wf(A, d), m >= 0, batch_index_ok(IMt, m, A, d)]
+    cs = chain_shape_all(U, A, d, [T.wf(A, d)], AXG)
+    res = U.run(ex, st, pre=pre + [cs])
+    U.cover('precondition-satisfiable', U.pre, axioms=AXG)
+    s0 = z3.Int('s0')
+    for p, o in res:
+        if o.kind != 'return':
+            U.post('no-exception', p, False, axioms=AXG, mode='ematch')
+            continue
+        R = p.deref(o.value)
+        U.post('arguments-untouched', p, z3.BoolVal(p.heap[Y.oid].arr is A))
+        hyp = list(p.pc) + [0 <= s0, s0 < m]
+        if to_item:
+            ok = isinstance(R, VArr) and R.ndim == 1 and R.tag == 'rvec' and R.t is not None
+            U.post('returns-a-vector-with-known-entries', p, z3.BoolVal(ok))
+            if not ok:
+                continue
+            U.post('one-value-per-multi-index', p, Z(R.shape[0]) == m, axioms=AXG, mode='ematch')
+            U.post('every-value-is-the-chained-entry-of-its-multi-index', hyp, R.t[s0] == val(A, IMt[s0], d), axioms=AXG, mode='ematch')
+            U.canary('canary-every-value-is-zero', hyp, R.t[s0] == 0, axioms=AXG)
+        else:
+            ok = isinstance(R, VArr) and R.ndim == 3 and R.tag == 'matbatch' and R.t is not None
+            U.post('returns-a-batch-of-matrices', p, z3.BoolVal(ok))
+            if not ok:
+                continue
+            U.post('shape-is-(1, samples, 1)', p, z3.And(Z(R.shape[0]) == 1, Z(R.shape[1]) == m, Z(R.shape[2]) == 1), axioms=AXG, mode='ematch')
+            U.post('every-slice-is-the-full-chain-of-its-multi-index', hyp, R.t[s0] == T.chain(A, IMt[s0], d - 1), axioms=AXG, mode='ematch')
+            U.canary('canary-slices-are-the-first-core-slices', hyp, R.t[s0] == T.chain(A, IMt[s0], 0), axioms=AXG)
+
+
+@unit('act_one.get_many', props=('C01',))
+def u_get_many(U):
+    _get_many_unit(U, True)
+
+
+@unit('act_one.get_many.rows', props=('C01',))
+def u_get_many_rows(U):
+    _get_many_unit(U, False)
+
+
+# ----------------------------------------------------------------------------------------------
+# call-site contracts used below
+
+def call_get_many(ex, st, args, kwargs, node):
+    """get_many(Y, I) with the default _to_item=True: postcondition of unit act_one.get_many."""
+    Ys, Iv = st.deref(args[0]), st.deref(args[1]) if len(args) > 1 else None
+    if kwargs or len(args) != 2 or not (isinstance(Ys, VSeq) and Ys.tag == 'core') or not (isinstance(Iv, VArr) and Iv.tag == 'idxbatch'):
+        raise M.Unsupported('get_many: only get_many(<TT>, <2-D index array>) has a call-site contract')
+    d, m = Ys.n, Z(Iv.shape[0])
+    ex.oblige(st, 'call-pre', 'get_many: well-formed tensor, one column per mode, every index within its mode',
+              z3.And(T.wf(Ys.arr, d), m >= 0, Z(Iv.shape[1]) == d, batch_index_ok(Iv.t, m, Ys.arr, d)), node)
+    out = ex.fresh('ygm', X.RA)
+    s_ = z3.Int('s!gm')
+    st.assume(z3.ForAll([s_], z3.Implies(z3.And(0 <= s_, s_ < m), out[s_] == val(Ys.arr, Iv.t[s_], d)), patterns=[out[s_]]))
+    res = X.mk_wvec(Iv.shape[0], out)
+    st.ghost.setdefault('get_many_calls', []).append((Ys.arr, d, Iv.t, res))
+    return res
+
+
+def trunc_cap(r):
+    c = z3.ToInt(M.to_real(r))
+    return z3.If(c >= 1, c, 1)
+
+
+def truncate_post(Yarr, d, R, r):
+    """What the units transformation.truncate.eigh[.stab] / .svd[.stab] prove about Z = truncate(Y, e, r) (contracts/transformation.py):
+    well-formed, same mode sizes, no rank above the input rank, no rank above max(1, int(r))."""
+    t = z3.Int('t!tc')
+    return {'well-formed': T.wf(R, d),
+            'mode-sizes': z3.ForAll([t], z3.Implies(z3.And(0 <= t, t < d), T.d1(R[t]) == T.d1(Yarr[t])), patterns=[R[t]]),
+            'ranks-at-most-input-ranks': z3.ForAll([t], z3.Implies(z3.And(0 <= t, t < d), T.d2(R[t]) <= T.d2(Yarr[t])), patterns=[R[t]]),
+            'ranks-at-most-cap': z3.ForAll([t], z3.Implies(z3.And(1 <= t, t < d), T.d0(R[t]) <= trunc_cap(r)), patterns=[R[t]])}
+
+
+def call_truncate(ex, st, args, kwargs, node):
+    """truncate(Y, e[, r]) with the default flags (orth=True, use_stab=False, is_eigh=True): postcondition of unit
+    transformation.truncate.eigh (precondition there: wf(Y), e >= 0, r >= 0)."""
+    Ys = st.deref(args[0])
+    if not (isinstance(Ys, VSeq) and Ys.tag == 'core') or set(kwargs) - {'e', 'r'} or len(args) > 3:
+        raise M.Unsupported('truncate: only truncate(<TT>, e[, r]) with default flags has a call-site contract here')
+    e = args[1] if len(args) > 1 else kwargs.get('e', 1.E-10)
+    r = args[2] if len(args) > 2 else kwargs.get('r', 1.E+12)
+    e, r = ex.need_num(st, e, node, 'truncate-accuracy'), ex.need_num(st, r, node, 'truncate-rank-cap')
+    d = Ys.n
+    ex.oblige(st, 'call-pre', 'truncate: well-formed tensor, e >= 0, r >= 0', z3.And(T.wf(Ys.arr, d), Z(e) >= 0, Z(r) >= 0), node)
+    R = ex.fresh('Ztrunc', T.TT)
+    for g in truncate_post(Ys.arr, d, R, r).values():
+        st.assume(g)
+    res = st.alloc(VSeq(R, d, M.mk_core, 'core'))
+    st.ghost.setdefault('truncate_calls', []).append(dict(Y=Ys.arr, d=d, e=e, r=r, R=R, ref=res))
+    return res
+
+
+# ----------------------------------------------------------------------------------------------
+# data.accuracy_on_data
+#
+# Sentinel: -1 is returned iff I_data or y_data is None (the documented sentinel of C11) - before anything is computed.
+# Otherwise, with y = get_many(Y', I_data) (Y' = Y, or truncate(Y, e_trunc) when e_trunc is given):
+#     result * ||y_data|| = || y - y_data ||,   (y - y_data)[s] = val(Y', I_data[s, :]) - y_data[s],   result >= 0
+# (a relation over the callee contracts of get_many / truncate and the model of np.linalg.norm: vnorm = Euclidean norm).
+# Precondition: one column per mode, indices in range, e_trunc >= 0 if given, and ||y_data|| > 0.
+# Not covered: y_data = 0 (NumPy returns nan / inf with a warning - outside the precondition; C11 names no sentinel for it),
+# how close truncate(Y, e_trunc) is to Y (C02), rounding.
+
+AXD = T.axioms('shape', 'chain', 'vnorm')
+
+
+@unit('data.accuracy_on_data', props=('C01', 'C11'))
+def u_accuracy_on_data(U):
+    fn = U.func('data', 'accuracy_on_data')
+    st = U.state()
+    Y, A, d = S.tt_param(st, 'Y')
+    IMt, m, yarr = z3.Const('I', X.IM), z3.Int('m'), z3.Const('y', X.RA)
+    I_none, y_none, e_none, e_tr = z3.Bool('I_none'), z3.Bool('y_none'), z3.Bool('e_none'), z3.Real('e_trunc')
+    ex = U.executor(fn, callees={'act_one.get_many': call_get_many, 'transformation.truncate': call_truncate}, axioms=AXD)
+    ex.mode = 'ematch'
+    st.vars.update(Y=Y, I_data=VOpt(I_none, X.idx_batch(IMt, m, d)), y_data=VOpt(y_none, X.mk_wvec(m, yarr)), e_trunc=VOpt(e_none, e_tr))
+    res = U.run(ex, st, pre=[T.wf(A, d), m >= 0, batch_index_ok(IMt, m, A, d), z3.Implies(z3.Not(e_none), e_tr >= 0), X.vnorm(yarr, m) > 0])
+    U.assumed += ['act_one.get_many (unit act_one.get_many)', 'transformation.truncate (unit transformation.truncate.eigh)']
+    U.cover('precondition-satisfiable', U.pre, axioms=AXD)
+    missing = z3.Or(I_none, y_none)
+    s0 = z3.Int('s0')
+    seen = set()
+    for p, o in res:
+        if o.kind != 'return':
+            U.post('no-exception', p, False, axioms=AXD, mode='ematch')
+            continue
+        U.post('argument-untouched', p, z3.BoolVal(p.heap[Y.oid].arr is A))
+        if isinstance(o.value, (int, float)):
+            seen.add('sentinel')
+            U.post('a-constant-is-returned-only-as-the-sentinel--1', p, z3.BoolVal(o.value == -1))
+            U.raise_iff('sentinel-only-if-data-missing', p, missing, axioms=AXD)
+            U.post('sentinel-before-any-evaluation', p, z3.BoolVal(not p.ghost.get('get_many_calls') and not p.ghost.get('truncate_calls')))
+            continue
+        U.raise_iff('a-value-only-if-data-present', p, z3.Not(missing), axioms=AXD)
+        gm, tr, ops, nrm = p.ghost.get('get_many_calls', []), p.ghost.get('truncate_calls', []), p.ghost.get('vec_ops', []), p.ghost.get('vnorms', [])
+        if not (len(gm) == 1 and len(ops) == 1 and len(nrm) == 2 and len(tr) <= 1 and M.is_num(o.value)):
+            raise M.ContractMismatch('accuracy_on_data(): not one batch evaluation, one vector difference / sum and two norms')
+        seen.add('trunc' if tr else 'plain')
+        if tr:
+            U.post('truncated-tensor-is-evaluated: truncate(Y, e_trunc) with the default cap', p,
+                   z3.And(z3.BoolVal(tr[0]['Y'] is A and gm[0][0] is tr[0]['R']), M.to_real(tr[0]['e']) == e_tr, z3.Not(e_none),
+                          M.to_real(tr[0]['r']) == z3.RealVal(10) ** 12), axioms=AXD)
+        else:
+            U.post('the-tensor-itself-is-evaluated-when-no-truncation-is-requested', p, z3.And(z3.BoolVal(gm[0][0] is A), e_none), axioms=AXD)
+        Aeff = gm[0][0]
+        kind, lhs, rhs, D = ops[0]
+        num = [(v, x) for v, x in nrm if v is D]
+        den = [(v, x) for v, x in nrm if v is not D]
+        if len(num) != 1 or len(den) != 1 or not (lhs is gm[0][3] or rhs is gm[0][3]):
+            raise M.ContractMismatch('accuracy_on_data(): the norms are not those of (batch -+ data) and of one other vector')
+        (_, num), (dv, den) = num[0], den[0]
+        sgn = 1 if lhs is gm[0][3] else -1            # || y - y_data || = || y_data - y ||: either order denotes the same number
+        other = rhs if lhs is gm[0][3] else lhs
+        hyp = list(p.pc)
+        U.post('same-number-of-samples', hyp, z3.And(Z(D.shape[0]) == m, Z(dv.shape[0]) == m), axioms=AXD, mode='ematch')
+        U.post('numerator-vector-is-the-difference-of-the-evaluated-batch-and-the-data', hyp + [0 <= s0, s0 < m],
+               z3.And(D.t[s0] == sgn * (val(Aeff, IMt[s0], d) - yarr[s0]), z3.BoolVal(kind == 'sub'), other.t[s0] == yarr[s0]), axioms=AXD, mode='ematch')
+        U.post('denominator-vector-is-the-data', hyp + [0 <= s0, s0 < m], dv.t[s0] == yarr[s0], axioms=AXD, mode='ematch')
+        ret = M.to_real(o.value)
+        U.post('denominator-is-the-norm-of-the-data', hyp, den == X.vnorm(yarr, m), axioms=AXD, mode='ematch')
+        inst = [num >= 0, den > 0]                  # instance of 'vnorm' (norm >= 0) and the precondition
+        U.post('result-times-norm-of-the-data-is-the-norm-of-the-difference', hyp + inst + [den == X.vnorm(yarr, m)],
+               z3.And(ret * den == num, ret >= 0), qf=True)
+        U.canary('canary-result-is-the-sentinel', hyp + inst, ret == -1, qf=True)
+    U.post('all-three-cases-reached (sentinel, plain, truncated)', [], z3.BoolVal(seen == {'sentinel', 'plain', 'trunc'}))
+
+
+# ----------------------------------------------------------------------------------------------
+# act_many.outer_many for lists of 2 and of 3 TT-tensors
+#
+# The result is a fresh list: the cores of the first tensor, then those of the second (then the third); it is well-formed and
+#     val(result, i1 ++ i2 (++ i3)) = val(Y1, i1) * val(Y2, i2) (* val(Y3, i3))
+# by the two-part induction through the rank-1 joint that proves act_two.outer (applied twice for three tensors: first to the
+# concatenation B of Y1 and Y2, then to B and Y3).  The empty list gives None.
+# Not covered: lists of other lengths (same loop; bounded suite), number operands.
+
+AXO = T.axioms('shape', 'mulI', 'core', 'smul', 'chain', 'block')
+t_ = z3.Int('t!mo')
+
+
+def concat_facts(R, parts):
+    """R[t] = A_i[t - off_i] on the i-th segment (quantified facts with pattern R[t])."""
+    out, off = [], 0
+    for A_, d_ in parts:
+        out.append(z3.ForAll([t_], z3.Implies(z3.And(off <= t_, t_ < off + d_), R[t_] == A_[t_ - off]), patterns=[R[t_]]))
+        off = off + d_
+    return out
+
+
+def outer_value_lemma(U, name, ctx, R, A1, d1_, A2, d2_, ix, jx):
+    """ctx must contain: wf(A1, d1), wf(A2, d2), concat_facts(R, [(A1, d1), (A2, d2)]), jx[t] = ix[t + d1].
+    Proves (by induction, as in unit act_two.outer)  val(R, ix, d1 + d2) = val(A1, ix, d1) * val(A2, jx, d2)  and returns this equation."""
+    cs1 = lemma_chain_shape(U, f'{name}:first', A1, ix, d1_, ctx, AXO)
+    cs2 = lemma_chain_shape(U, f'{name}:second', A2, jx, d2_, ctx, AXO)
+    P1 = lambda k: T.chain(R, ix, k) == T.chain(A1, ix, k)
+    U.lemma(f'{name}: first-part-of-the-chain-is-that-of-the-first-tensor.base', ctx, P1(z3.IntVal(0)), axioms=AXO, mode='ematch', kind='lemma-base')
+    U.lemma(f'{name}: first-part-of-the-chain-is-that-of-the-first-tensor.step', ctx + [kk >= 1, kk < d1_, P1(kk - 1)], P1(kk), axioms=AXO,
+            mode='ematch', kind='lemma-step')
+    v1 = val(A1, ix, d1_)
+    mm_ = z3.Int('m!mo')
+    P2 = lambda m: T.chain(R, ix, d1_ + m) == T.smul(v1, T.chain(A2, jx, m))
+    U.lemma(f'{name}: second-part-is-the-first-value-times-the-chain-of-the-second-tensor.base', ctx + [cs1, cs2, P1(d1_ - 1)], P2(z3.IntVal(0)),
+            axioms=AXO, mode='ematch', kind='lemma-base')
+    U.lemma(f'{name}: second-part-is-the-first-value-times-the-chain-of-the-second-tensor.step', ctx + [cs1, cs2, mm_ >= 1, mm_ < d2_, P2(mm_ - 1)],
+            P2(mm_), axioms=AXO, mode='ematch', kind='lemma-step')
+    eq = val(R, ix, d1_ + d2_) == v1 * val(A2, jx, d2_)
+    U.lemma(f'{name}: value-is-the-product-of-the-two-values', ctx + [cs1, cs2, P2(d2_ - 1)], eq, axioms=AXO, mode='ematch', kind='lemma')
+    return eq, [cs1, cs2, P2(d2_ - 1)]
+
+
+def _tt_list(st, n, same_d=None):
+    """A Python list of n TT-tensors (concrete length): [(ref, arr, d)], and the list reference."""
+    tts = [S.tt_param(st, f'Y{i + 1}', same_d if same_d is not None else z3.Int(f'd{i + 1}')) for i in range(n)]
+    return tts, st.alloc(VList([r for r, _, _ in tts]))
+
+
+def _untouched(p, tts, lref):
+    items = p.heap[lref.oid].items
+    return len(items) == len(tts) and all(isinstance(x, VRef) and x.oid == r.oid for x, (r, _, _) in zip(items, tts)) \
+        and all(p.heap[r.oid].arr is a for r, a, _ in tts)
+
+
+def _outer_many_unit(U, n):
+    fn = U.func('act_many', 'outer_many')
+    ex = U.executor(fn, axioms=AXO)
+    ex.mode = 'ematch'
+    st = U.state()
+    tts, Ym = _tt_list(st, n)
+    st.vars.update(Y_many=Ym)
+    res = U.run(ex, st, pre=[T.wf(a, d_) for _, a, d_ in tts])
+    U.cover('precondition-satisfiable', U.pre, axioms=AXO)
+    ix = z3.Const('ix', T.IDX)
+    parts = [(a, d_) for _, a, d_ in tts]
+    dtot = sum(d_ for _, d_ in parts[1:]) + parts[0][1]
+    for p, o in res:
+        if o.kind != 'return' or not isinstance(o.value, VRef) or not isinstance(p.deref(o.value), VSeq):
+            U.post('returns-a-list-of-cores', p, False, axioms=AXO, mode='ematch')
+            continue
+        Rs = p.deref(o.value)
+        R = Rs.arr
+        U.post('fresh-result-and-arguments-untouched', p, z3.BoolVal(o.value.oid not in [r.oid for r, _, _ in tts] + [Ym.oid] and _untouched(p, tts, Ym)))
+        U.post('length-is-the-sum-of-the-lengths', p, Rs.n == dtot, axioms=AXO, mode='ematch')
+        off = 0
+        for i, (a, d_) in enumerate(parts):
+            U.post(f'cores-of-tensor-{i + 1}-in-place', p, z3.Implies(z3.And(off <= t_, t_ < off + d_), R[t_] == a[t_ - off]), axioms=AXO, mode='ematch')
+            off = off + d_
+        U.post('well-formed', p, T.wf(R, dtot), axioms=AXO, mode='ematch')
+        base = list(p.pc) + [T.index_ok(ix, R, dtot)]
+        (A1, d1_), (A2, d2_) = parts[0], parts[1]
+        j1 = z3.Const('jx1', T.IDX)
+        j1def = z3.ForAll([t_], j1[t_] == ix[t_ + d1_], patterns=[j1[t_]])
+        if n == 2:
+            ctx = base + concat_facts(R, parts) + [j1def]
+            eq, facts = outer_value_lemma(U, 'outer', ctx, R, A1, d1_, A2, d2_, ix, j1)
+            U.post('value-is-the-product-of-the-values', ctx + [eq], val(R, ix, dtot) == val(A1, ix, d1_) * val(A2, j1, d2_), qf=True)
+            U.canary('canary-value-is-that-of-the-second-tensor', ctx + facts, val(R, ix, dtot) == val(A2, j1, d2_), axioms=AXO)
+        else:
+            (A3, d3_) = parts[2]
+            d12 = d1_ + d2_
+            B = z3.Const('B12', T.TT)                      # spec constant: the concatenation of Y1 and Y2 (definition below)
+            bdef = z3.ForAll([t_], B[t_] == z3.If(t_ < d1_, A1[t_], A2[t_ - d1_]), patterns=[B[t_]])
+            j2 = z3.Const('jx2', T.IDX)
+            j2def = z3.ForAll([t_], j2[t_] == ix[t_ + d12], patterns=[j2[t_]])
+            ctxB = base + [bdef, j1def, j2def]
+            U.lemma('concatenation-of-the-first-two-is-well-formed', ctxB, T.wf(B, d12), axioms=AXO, mode='ematch', kind='lemma')
+            U.lemma('result-starts-with-the-concatenation-of-the-first-two', ctxB + concat_facts(R, parts) + [0 <= t_, t_ < d12], R[t_] == B[t_],
+                    axioms=AXO, mode='ematch', kind='lemma')
+            ctx1 = ctxB + concat_facts(B, parts[:2])
+            U.lemma('concatenation-facts-for-the-first-two', ctxB + [0 <= t_, t_ < d12],
+                    z3.And(z3.Implies(t_ < d1_, B[t_] == A1[t_]), z3.Implies(t_ >= d1_, B[t_] == A2[t_ - d1_])), axioms=AXO, mode='ematch', kind='lemma')
+            eq1, _ = outer_value_lemma(U, 'outer(Y1,Y2)', ctx1, B, A1, d1_, A2, d2_, ix, j1)
+            ctx2 = base + [T.wf(B, d12), j2def] + concat_facts(R, [(B, d12), (A3, d3_)])
+            eq2, facts = outer_value_lemma(U, 'outer(B,Y3)', ctx2, R, B, d12, A3, d3_, ix, j2)
+            U.post('value-is-the-product-of-the-values', [eq1, eq2],
+                   val(R, ix, dtot) == val(A1, ix, d1_) * val(A2, j1, d2_) * val(A3, j2, d3_), qf=True)
+            U.canary('canary-value-is-that-of-the-third-tensor', [eq1, eq2], val(R, ix, dtot) == val(A3, j2, d3_), qf=True)
+
+
+@unit('act_many.outer_many.n2', props=('C01',))
+def u_outer_many2(U):
+    _outer_many_unit(U, 2)
+
+
+@unit('act_many.outer_many.n3', props=('C01',))
+def u_outer_many3(U):
+    _outer_many_unit(U, 3)
+
+
+@unit('act_many.outer_many.empty', props=('C01',))
+def u_outer_many0(U):
+    fn = U.func('act_many', 'outer_many')
+    ex = U.executor(fn)
+    st = U.state()
+    st.vars.update(Y_many=st.alloc(VList([])))
+    for p, o in U.run(ex, st):
+        U.post('empty-list-gives-None', p, z3.BoolVal(o.kind == 'return' and o.value is NONE))
+
+
+# ----------------------------------------------------------------------------------------------
+# act_many.add_many for lists of 2 and of 3 TT-tensors of the same shape (trunc_freq left at its default 15, or set to 2)
+#
+# The running sum passes through add (call-site contract `call_add` of contracts/act.py, proved by unit act_two.add.tt_tt) and the LAST
+# step is truncate(S, e, r) with the caller's accuracy e and the caller's rank cap r (call-site contract `call_truncate` above, proved
+# by the units transformation.truncate.*).  Postconditions:
+#   * the tensor S handed to the final truncate denotes the elementwise sum:  val(S, i) = val(Y1, i) + val(Y2, i) (+ val(Y3, i))
+#     when no intermediate truncation happened (trunc_freq = 15); with trunc_freq = 2 the sum of three is rounded once in between
+#     and only the structure is claimed;
+#   * the result is a fresh well-formed tensor with the mode sizes of the operands; every rank is <= max(1, int(r)) and <= the sum of
+#     the operand ranks at that bond (C02 "never exceeds rank caps", C11 "well-formed");
+#   * the arguments are untouched.
+# How close the result is to S is the business of C02 (truncate); number operands and longer lists are left to the bounded suite.
+
+AXA = T.axioms('shape', 'mulI', 'chain', 'smul')
+
+
+def _add_many_unit(U, n, trunc_freq):
+    fn = U.func('act_many', 'add_many')
+    ex = U.executor(fn, callees={'transformation.truncate': call_truncate}, axioms=AXA)
+    ex.mode = 'ematch'
+    st = U.state()
+    d = z3.Int('d')
+    tts, Ym = _tt_list(st, n, same_d=d)
+    e0, r0 = z3.Real('e'), z3.Real('r')
+    st.vars.update(Y_many=Ym, e=e0, r=r0, trunc_freq=trunc_freq)
+    A = [a for _, a, _ in tts]
+    res = U.run(ex, st, pre=[T.wf(a, d) for a in A] + [same_shape(A[0], a, d) for a in A[1:]] + [e0 >= 0, r0 >= 0])
+    U.assumed += ['act_two.add (unit act_two.add.tt_tt)', 'transformation.truncate (units transformation.truncate.eigh ...)']
+    U.cover('precondition-satisfiable', U.pre, axioms=AXA)
+    ix = z3.Const('ix', T.IDX)
+    tt = z3.Int('tt')
+    expect_mid = [k for k in range(1, n) if k % trunc_freq == 0]          # additions after which an intermediate truncation is due
+    for p, o in res:
+        if o.kind != 'return' or not isinstance(o.value, VRef) or not isinstance(p.deref(o.value), VSeq):
+            U.post('returns-a-list-of-cores', p, False, axioms=AXA, mode='ematch')
+            continue
+        Rs = p.deref(o.value)
+        R = Rs.arr
+        calls = p.ghost.get('truncate_calls', [])
+        U.post('fresh-result-and-arguments-untouched', p, z3.BoolVal(o.value.oid not in [r.oid for r, _, _ in tts] + [Ym.oid] and _untouched(p, tts, Ym)))
+        U.post('the-last-step-is-a-truncation-and-its-result-is-returned', p, z3.BoolVal(len(calls) >= 1 and calls[-1]['R'] is R))
+        if not (len(calls) >= 1 and calls[-1]['R'] is R):
+            continue
+        last = calls[-1]
+        U.post('final-truncation-uses-the-accuracy-and-the-rank-cap-of-the-caller', p, z3.And(M.to_real(last['e']) == e0, M.to_real(last['r']) == r0),
+               axioms=AXA, mode='ematch')
+        U.post('intermediate-truncations-exactly-when-due-and-with-the-accuracy-of-the-caller', p,
+               z3.And([z3.BoolVal(len(calls) - 1 == len(expect_mid))] + [M.to_real(c['e']) == e0 for c in calls[:-1]]), axioms=AXA, mode='ematch')
+        hyp = list(p.pc)
+        U.post('well-formed-with-d-cores', hyp, z3.And(Rs.n == d, T.wf(R, d)), axioms=AXA, mode='ematch')
+        U.post('mode-sizes-of-the-operands', hyp + [0 <= tt, tt < d], T.d1(R[tt]) == T.d1(A[0][tt]), axioms=AXA, mode='ematch')
+        U.post('every-rank-at-most-max(1, int(r))', hyp + [1 <= tt, tt < d], T.d0(R[tt]) <= trunc_cap(r0), axioms=AXA, mode='ematch')
+        # e-matching needs the left neighbour R[tt-1] as a term: one instance of wf(R) (positivity at tt-1), proved first, serves as the hint
+        nb = T.d2(R[tt - 1]) >= 1
+        U.lemma('left-neighbour-instance-of-well-formedness', hyp + [1 <= tt, tt < d], nb, axioms=AXA, mode='ematch', kind='lemma')
+        U.post('every-rank-at-most-the-sum-of-the-operand-ranks', hyp + [1 <= tt, tt < d, nb],
+               T.d0(R[tt]) <= sum(T.d0(a[tt]) for a in A[1:]) + T.d0(A[0][tt]), axioms=AXA, mode='ematch')
+        Sarr = last['Y']
+        total = sum(val(a, ix, d) for a in A[1:]) + val(A[0], ix, d)
+        ctx = hyp + [T.index_ok(ix, A[0], d)]
+        if not expect_mid:
+            U.post('the-tensor-handed-to-the-final-truncation-denotes-the-elementwise-sum', ctx, val(Sarr, ix, d) == total, axioms=AXA, mode='ematch')
+            U.canary('canary-the-sum-is-the-first-operand', ctx, val(Sarr, ix, d) == val(A[0], ix, d), axioms=AXA)
+        else:
+            U.canary('canary-no-rank-bound', hyp + [1 <= tt, tt < d], T.d0(R[tt]) <= 0, axioms=AXA)
+
+
+@unit('act_many.add_many.n2', props=('C01', 'C02', 'C11'))
+def u_add_many2(U):
+    _add_many_unit(U, 2, 15)
+
+
+@unit('act_many.add_many.n3', props=('C01', 'C02', 'C11'))
+def u_add_many3(U):
+    _add_many_unit(U, 3, 15)
+
+
+@unit('act_many.add_many.n3.freq2', props=('C02', 'C11'))
+def u_add_many3f(U):
+    _add_many_unit(U, 3, 2)
+
+
+# ----------------------------------------------------------------------------------------------
+# Hand-made mutants (MUT_BASE=/tmp/base tools/mut.sh <file> '<sed>' <units>) and the named obligation that reports each.
+# R(f, g) abbreviates the sed address '/^def f/,/^def g/' that restricts the edit to the function.
+#
+# props.size                   (props.py)
+#   s/\[G.size for G in Y\]/[G.size for G in Y[1:]]/                       post one-summand-per-core, lemma-step partial-sums-...
+#   s/\[G.size for G in Y\]/[G.shape[1] for G in Y]/                       post each-summand-is-the-size-of-its-core, lemma-step partial-sums-...
+#   s/\[G.size for G in Y\]/[G.size + 1 for G in Y]/                       post each-summand-is-the-size-of-its-core
+#   s/\[G.size for G in Y\]/[G.shape[0] * G.shape[1] for G in Y]/          post each-summand-is-the-size-of-its-core
+#   quiet (equivalent): G.shape[0] * G.shape[1] * G.shape[2] in any order; undecided: np.max for np.sum (Unsupported), explicit loop (ContractMismatch)
+# act_one.mean.{uniform,ones,weights}   (act_one.py, inside R(mean, norm))
+#   s/p = np.ones(k) \/ k if norm else np.ones(k)/p = np.ones(k) if norm else np.ones(k) \/ k/     inv-init / inv-keep loop0.accumulated-product-is-the-chain-... (uniform, ones)
+#   s/p = np.ones(k) \/ k if norm/p = np.ones(k) \/ (k + 1) if norm/         inv-init / inv-keep loop0.accumulated-product-is-the-chain-... (uniform)
+#   s/Z = Z @ np.einsum(...)/Z = np.einsum(...) @ Z/                        call-pre matmul-inner-dims-agree, inv-keep loop0.accumulated-product-is-a-row
+#   s/p = P\[i\]\[:k\]/p = P[0][:k]/                                         call-pre einsum-contracted-dimensions-agree, inv-keep loop0...chain... (weights)
+#   s/for i in range(len(Y)):/for i in range(len(Y) - 1):/                   post result-is-the-single-entry-of-the-chain-of-weighted-mode-sums (all three)
+#   s/if P is None:/if P is not None:/                                       inv-init / inv-keep loop0...chain... (weights); uniform / ones: Unsupported (P[i] of None)
+#   s/k = Y\[i\].shape\[1\]/k = Y[i].shape[2]/                               call-pre einsum-contracted-dimensions-agree (all three)
+#   quiet (equivalent): `for i, G in enumerate(Y): k = G.shape[1]`; undecided: np.dot for @ (Unsupported); seeded C01-4 (np.prod: Unsupported)
+# act_one.sum                  (act_one.py)
+#   s/return mean(Y, norm=False)/return mean(Y)/            post one-call-of-mean-on-the-argument-with-all-weights-1, post result-is-the-end-of-the-chain-of-plain-mode-sums
+#   s/return mean(Y, norm=False)/return -mean(Y, norm=False)/               the same two
+#   s/return mean(Y, norm=False)/return mean(Y[1:], norm=False)/            call-pre mean: well-formed tensor, and the same two
+# transformation.full.{d2,d3}  (transformation.py, inside R(full, full_matrix))
+#   seeded C01-1 (np.squeeze instead of the two guarded index steps)         post result-has-one-axis-per-mode (refuted, counter-model with a mode size 1)
+#   s/Z = np.tensordot(Z, G, 1)/Z = np.tensordot(G, Z, 1)/                   post result-has-one-axis-per-mode, shape-is-the-tuple-of-mode-sizes, entry-at-every-multi-index-...
+#   s/for G in Y\[1:\]:/for G in Y[:-1]:/                                    call-pre tensordot-contracted-dims-agree, post shape-..., entry-...
+#   s/if Z.shape\[-1\] == 1:/if Z.shape[-1] == 0:/                           post result-has-one-axis-per-mode (refuted)
+#   s/Z = Z\[\.\.\., 0\]/Z = Z[0, ...]/                                      post shape-is-the-tuple-of-mode-sizes, result-is-the-contraction-of-all-cores-with-both-rank-axes-dropped
+#   s/for G in Y\[1:\]:/for G in Y[2:]:/                                     post result-has-one-axis-per-mode, ...
+#   quiet (equivalent): axes=1 keyword, Z[-1, ...] for Z[0, ...]; undecided: Z[0] (Unsupported)
+# act_one.get_many[.rows]      (act_one.py, inside R(get_many, getter))
+#   s/range(1, I.shape\[-1\])/range(0, I.shape[-1])/                         call-pre batch-mode-indices-in-range, inv-keep loop0.every-row-is-the-partial-chain-of-its-multi-index
+#   s/zip(Y\[1:\]/zip(Y[:-1]/                                                call-pre einsum-contracted-dimensions-agree, inv-keep loop0.every-row-..., loop0.batch-shape
+#   s/Yk\[:, I\[\.\.\., k\], :\]/Yk[:, I[..., 0], :]/                         call-pre batch-mode-indices-in-range, inv-keep loop0.every-row-...
+#   s/Y\[0\]\[0, I\[\.\.\., 0\], :\] if _to_item/Y[0][0, I[..., 1], :] if _to_item/      inv-init loop0.every-row-... (get_many)
+#   s/return Q\[\.\.\., 0\] if _to_item else Q/return Q[..., 0] if not _to_item else Q/  post returns-a-vector-with-known-entries / returns-a-batch-of-matrices
+#   s/range(1, I.shape\[-1\])/range(1, I.shape[-1] - 1)/                     post every-value-is-the-chained-entry-of-its-multi-index / every-slice-is-the-full-chain-...
+#   quiet (equivalent): `for k in range(1, I.shape[-1]): Yk = Y[k]`, `for k, Yk in enumerate(Y[1:], 1)`
+# data.accuracy_on_data        (data.py)
+#   s/return -1\./return 0./                                                 post a-constant-is-returned-only-as-the-sentinel--1 (refuted)
+#   s/if I_data is None or y_data is None:/if I_data is None and y_data is None:/        safety array-argument-not-None
+#   s/... \/ np.linalg.norm(y_data)/... \/ np.linalg.norm(y)/                safety division-by-nonzero, post denominator-vector-is-the-data, denominator-is-the-norm-of-the-data
+#   s/np.linalg.norm(y - y_data)/np.linalg.norm(y + y_data)/                 post numerator-vector-is-the-difference-of-the-evaluated-batch-and-the-data
+#   s/if e_trunc is not None:/if e_trunc is None:/                           safety truncate-accuracy-not-None, post the-tensor-itself-is-evaluated-when-no-truncation-is-requested
+#   s/        Y = teneva.truncate(Y, e_trunc)/        teneva.truncate(Y, e_trunc)/      post truncated-tensor-is-evaluated
+#   s/Y = teneva.truncate(Y, e_trunc)/Y = teneva.truncate(Y, e_trunc, 1)/    post truncated-tensor-is-evaluated
+#   s/norm(y - y_data) \/ norm(y_data)/norm(y_data) \/ norm(y - y_data)/     safety division-by-nonzero, post result-times-norm-of-the-data-is-the-norm-of-the-difference (refuted)
+#   quiet (equivalent): norm(y_data - y); the denominator computed first into a variable
+# act_many.outer_many.{n2,n3,empty}     (act_many.py, from '/^def outer_many/' to the end)
+#   s/Y.extend(teneva.copy(Y_curr))/Y.extend(teneva.copy(Y_many[0]))/        post length-is-the-sum-of-the-lengths, cores-of-tensor-2-in-place, well-formed
+#   s/for Y_curr in Y_many\[1:\]:/for Y_curr in Y_many[2:]:/                 post length-..., cores-of-tensor-2-in-place, well-formed
+#   s/Y = teneva.copy(Y_many\[0\])/Y = Y_many[0]/                            post fresh-result-and-arguments-untouched (the first argument would be extended in place)
+#   s/        return None/        return []/                                 post empty-list-gives-None (refuted)
+# act_many.add_many.{n2,n3,n3.freq2}    (act_many.py, inside R(add_many, outer_many))
+#   s/return teneva.truncate(Y, e, r) if not/return teneva.truncate(Y, e) if not/      post final-truncation-uses-the-accuracy-and-the-rank-cap-of-the-caller, every-rank-at-most-max(1, int(r))
+#   s/return teneva.truncate(Y, e, r) if not/return teneva.truncate(Y, r, e) if not/   the same two
+#   s/return teneva.truncate(Y, e, r) if not teneva._is_num(Y) else Y/return Y/        post the-last-step-is-a-truncation-and-its-result-is-returned (refuted)
+#   s/enumerate(Y_many\[1:\])/enumerate(Y_many[2:])/                         post the-tensor-handed-to-the-final-truncation-denotes-the-elementwise-sum
+#   s/Y = teneva.add(Y, Y_curr)/Y = teneva.add(Y, Y)/                        post every-rank-at-most-the-sum-of-the-operand-ranks, the-tensor-handed-to-...-elementwise-sum
+#   s/(i+1) % trunc_freq == 0/i % trunc_freq == 0/                           post intermediate-truncations-exactly-when-due-..., the-tensor-handed-to-...-elementwise-sum
+#   seeded C02-4 (final truncation skipped after an intermediate one)        n3.freq2: post final-truncation-uses-..., every-rank-at-most-max(1, int(r))
+#   quiet (harmless): Y = Y_many[0] without copy (add returns a fresh list); the cap r also at intermediate truncations
